@@ -180,6 +180,42 @@ func Count(principals []world.PrincipalSpec, s Signers, trustedApps map[string]b
 	return len(credited)
 }
 
+// CountPooled is Count under the reading that pools the approver logins of all trusted apps and
+// matches them against a person's identity on ANY app (what known finding C09-K1 describes). It is
+// only used to tell whether that finding can explain an acceptance.
+func CountPooled(principals []world.PrincipalSpec, s Signers, trustedApps map[string]bool) int {
+	pool := map[string]bool{}
+	for app, logins := range s.Approvers {
+		if strings.Contains(app, "\x00") || !trustedApps[app] {
+			continue
+		}
+		for l := range logins {
+			pool[l] = true
+		}
+	}
+	credited := Count(principals, s, trustedApps)
+	// add persons credited only through pooling
+	base := map[string]bool{}
+	for _, p := range principals {
+		one := Count([]world.PrincipalSpec{p}, s, trustedApps)
+		if one > 0 {
+			base[p.ID] = true
+		}
+	}
+	for _, p := range principals {
+		if base[p.ID] || !p.Person {
+			continue
+		}
+		for _, ident := range p.Identities {
+			if pool[ident] {
+				credited++
+				break
+			}
+		}
+	}
+	return credited
+}
+
 // SharesKeys reports whether two principals of the list own a common key.
 func SharesKeys(principals []world.PrincipalSpec) bool {
 	seen := map[int]string{}
@@ -397,6 +433,35 @@ func (l *Log) DecideUnder(i int, p *world.PolicySpec, att *world.AttState) Decis
 	}
 	d.Authorized = true
 	return d
+}
+
+// PooledAuthorizes reports whether entry i meets a delegation rule under CountPooled.
+func (l *Log) PooledAuthorizes(i int) bool {
+	e := l.entries()[i]
+	p := l.PolicyBefore(i)
+	if p == nil {
+		return false
+	}
+	s := l.SignersFor(i)
+	trusted := map[string]bool{}
+	for _, a := range p.Apps {
+		if !a.Trusted {
+			continue
+		}
+		if sg, ok := s.Approvers[a.Name+"\x00signer"]; ok {
+			for _, k := range a.Keys {
+				if sg[fmt.Sprint(k)] {
+					trusted[a.Name] = true
+				}
+			}
+		}
+	}
+	for _, v := range Walk(p, "git:"+e.Ref) {
+		if v.Threshold >= 1 && CountPooled(v.Principals, s, trusted) >= v.Threshold {
+			return true
+		}
+	}
+	return false
 }
 
 func (l *Log) prevUnskippedForRef(i int) int {
